@@ -181,6 +181,17 @@ pub fn main(opts: &Opts) -> i32 {
                 for (name, code) in &corpus {
                     cases.push((format!("orig:{name}"), code.clone()));
                 }
+                // corpus/C11x: later witnesses; run as they stand but kept out of the mutation
+                // base, so that recording a witness does not change the mutant stream of a seed
+                let mut extra: Vec<_> = std::fs::read_dir("/verif/corpus/C11x")
+                    .map(|rd| rd.flatten().map(|e| e.path()).collect())
+                    .unwrap_or_default();
+                extra.sort();
+                for p in extra {
+                    if let Ok(s) = std::fs::read_to_string(&p) {
+                        cases.push((format!("orig:{}", p.to_string_lossy()), s));
+                    }
+                }
                 for i in 0..n {
                     let k = r.below(all.len() as u64) as usize;
                     let mut code = mutate_lines(&mut r, &all[k], &all);
